@@ -250,7 +250,7 @@ InvalidFor(line, elem, repl) ==
           [] elem = "dst"   -> tcp /\ AllIn(repl, FieldBytes) /\ ~(IF six THEN Ipv6Ok(repl) ELSE Ipv4Ok(repl))
           [] elem = "sport" -> tcp /\ AllIn(repl, FieldBytes) /\ ~PortOk(repl)
           [] elem = "dport" -> tcp /\ AllIn(repl, FieldBytes) /\ ~PortOk(repl)
-          [] elem = "lf"    -> Len(repl) = 1 /\ repl[1] \in 0..127 /\ repl[1] # LF
+          [] elem = "lf"    -> repl # << LF >> /\ repl # << >> /\ Utf8SeqLen(repl, 1) = Len(repl)   \* one character
           [] elem = "long"  -> ~tcp /\ repl # << >> /\ repl[1] = SP /\ Find(repl, CR) = 0 /\ Utf8Valid(repl)
                                  /\ 13 + Len(repl) + 2 > MaxLen
           [] elem = "utf8"  -> ~tcp /\ repl # << >> /\ repl[1] = SP /\ Find(repl, CR) = 0 /\ ~Utf8Valid(repl)
